@@ -150,6 +150,13 @@ CHECKS = {
             "thorough) analysed by the real resolve_dependencies and evaluated by node with inputs wrapped in a recording Proxy; "
             "oracle: node succeeds => analysis returns and recorded reads are a subset of its result.",
             "Top-level fields of inputs only; four recorded causes (computed key, var alias, inputs as argument, (inputs).a).", "3/C31"),
+    "C25": ("exploration", "E3", E3 + "; differential against sh -c in a fresh process; all command sequences up to length 2-4",
+            "Real LocalConnector.run and the real persistent-shell run() of a shell-based remote location: every hostile string (all "
+            "strings of length <= 2 over 11 shell-relevant characters + specials) as environment value and as working directory, 10 "
+            "output payloads x exit codes, every command sequence of length <= 2 (thorough 3-4) over {ok, fail, no-newline, 70 KB, "
+            "stderr, timeout}; oracle: output/status as a fresh sh -c, values verbatim, each command executed exactly once.",
+            "Commands are shell text by design; real-time 1 s timeouts; BaseConnector.run's inherited direct-exec path is not "
+            "exercised (no shipped connector uses it).", "3/C25"),
 }
 
 NOT_YET = "check not built yet in this session (planned, see DESIGN.md section 3); no claim is made"
